@@ -79,6 +79,33 @@ theorem mode_attrs (w e c : Bool) :
     Model.attrs ((if w then 64 else 0) + (if e then 8 else 0) + (if c then 1 else 0)) = ⟨w, e, c⟩ := by
   cases w <;> cases e <;> cases c <;> decide
 
+/-! ### function objects created at run time (all parameter counts, all numbers of bound arguments) -/
+
+/-- newBoundFunctionObject computes max(0, L − n) (ES5 §15.3.4.5 step 15), for every target length and argument count -/
+theorem bound_length (L n : Nat) : Model.boundLength L n = ((L - n : Nat) : Int) := by
+  unfold Model.boundLength; simp only; split <;> omega
+
+theorem dyn_length_eq (k : Spec.DynKind) (L n : Nat) : Model.dynLength k L n = (Spec.dynLength k L n : Int) := by
+  cases k <;> simp [Model.dynLength, Spec.dynLength, bound_length]
+
+/-- §13.2 / §15.3.4.5: outside the two regions every reflected field of every run-time function object is as specified -/
+theorem dyn_model_eq_spec (k : Spec.DynKind) (L n : Nat) (f : Spec.DynField) (h : Model.devDyn k f = "-") :
+    Model.dyn k L n f = Spec.dyn k L n f := by
+  cases f
+  · have := dyn_length_eq k L n
+    simp only [Model.dyn, Spec.dyn]
+    rw [this]; simp [Model.attrs, Spec.Attrs.tok, Spec.ro]
+  all_goals (cases k <;> simp_all [Model.dyn, Spec.dyn, Model.devDyn, Model.attrs, Spec.Attrs.tok])
+
+/-- inside the regions otto deviates for every L and n -/
+theorem dyn_regions_tight (k : Spec.DynKind) (L n : Nat) (f : Spec.DynField) (h : Model.devDyn k f ≠ "-") :
+    Model.dyn k L n f ≠ Spec.dyn k L n f := by
+  cases f <;> cases k <;> simp_all [Model.dyn, Spec.dyn, Model.devDyn, Model.attrs, Spec.Attrs.tok]
+
+example : Model.dyn .bound 2 1 .hasproto = "P" ∧ Spec.dyn .bound 2 1 .hasproto = "-" := by decide
+example : Model.dyn .node 2 0 .callerdesc = "panic" ∧ Spec.dyn .node 2 0 .callerdesc = "ok" := by decide
+example : Model.devDyn .node .length = "-" ∧ Model.devDyn .bound .length = "-" := by decide
+
 /-! ### wiring: which Go function a slot is bound to follows the naming convention builtin<Type><Name>, except for
     the listed `call:` overrides -/
 set_option maxRecDepth 100000 in
